@@ -31,7 +31,7 @@ ASSUMPTIONS = [
     "FixRot geometries have inertia-tensor condition number <= 1e3 (non-degenerate, as the statement requires)",
     "FixAtoms and FixCom are never combined on one Atoms object: ASE applies constraints one after the other, so FixCom's rigid shift moves the atoms FixAtoms has just restored (an ASE semantics, observed, not a quansino defect)",
 ]
-REQUIRED = {"trials_fixatoms": 800, "trials_fixcom": 500, "forcebias_steps": 300, "hamiltonian_trials": 150, "fixrot_calls": 2000, "moved_trials": 1000, "exchange_trials_with_fixed_framework": 100}
+REQUIRED = {"forcebias_sims_with_custom_displacement_masses": 10, "trials_fixatoms": 800, "trials_fixcom": 500, "forcebias_steps": 300, "hamiltonian_trials": 150, "fixrot_calls": 2000, "moved_trials": 1000, "exchange_trials_with_fixed_framework": 100}
 SHARD_TIMEOUT = {"quick": 900, "thorough": 3000}
 
 
@@ -158,6 +158,23 @@ def run_fb(spec, rec):
             idx = fixed_indices(atoms)
             fix0 = atoms.positions[idx].copy()
             com0 = atoms.get_center_of_mass() if has_fixcom(atoms) else None
+            # displacement masses other than the atoms' own, through the public update_masses() (uniform, per atom or
+            # per coordinate), in a third of the simulations; in another sixth the atoms' masses change after
+            # construction without update_masses() being called again
+            mm = rng.random()
+            if mm < 0.34:
+                n = len(atoms)
+                which = int(rng.integers(3))
+                custom = [np.full(n, float(rng.uniform(1, 100))), rng.uniform(1, 200, n), rng.uniform(1, 200, (n, 3))][which]
+                mc.update_masses(custom)
+                wit0["displacement_masses"] = ["uniform", "per-atom", "per-coordinate"][which]
+                rec.count("forcebias_sims_with_custom_displacement_masses")
+            elif mm < 0.5:
+                atoms.set_masses(rng.uniform(1, 200, len(atoms)))
+                if com0 is not None:
+                    com0 = atoms.get_center_of_mass()
+                wit0["displacement_masses"] = "atoms' masses changed after construction"
+                rec.count("forcebias_sims_with_custom_displacement_masses")
             for k, _ in enumerate(mc.irun(spec["steps"])):
                 rec.evaluations += 1
                 rec.count("forcebias_steps")
